@@ -390,8 +390,97 @@ def narrow_total_case(ctx, index, rng: random.Random):
     rec.case([dt, shape, big.ravel().tolist()], exact > top, cls=f"narrow_total/{dt}/{d}d")
 
 
+def far_scale_case(ctx, index, rng: random.Random):
+    """Factors far from one (units: 1e150, 1e-150) whose square is still a float: the statistics a user reads - mean(), variance(),
+    std() - stay those of the values, the recorded weight scales; and a scaling that is refused (a negative bin from free arithmetics,
+    scaled outside of it) leaves the histogram as it was."""
+    import physt
+    from fractions import Fraction
+    from physt.config import config
+
+    rec = ctx.rec
+    rec.mon("C06.scale.stats")
+    if rng.random() < 0.35:
+        # refused for its contents
+        e = gen.edges(rng, rng.randint(2, 5))
+        a = physt.h1(np.asarray(gen.data_for_bins(rng, gen.pairs_from_edges(e), 12)), np.array(e), dtype=rng.choice([None, "int32", "float64"]))
+        b = physt.h1(np.asarray(gen.data_for_bins(rng, gen.pairs_from_edges(e), 25)), np.array(e), dtype=a.dtype)
+        with config.enable_free_arithmetics():
+            hneg = a - b
+        with attach.quiet():
+            has_negative = bool(np.any(np.asarray(hneg.frequencies) < 0))
+            s0 = snap.snapshot(hneg)
+        c = rng.choice([2, 0.5, 3.0, np.int64(2), np.float32(1.5)])
+        form = rng.choice(["imul", "idiv"])
+        raised = None
+        try:
+            with warnings.catch_warnings():
+                warnings.simplefilter("ignore")
+                if form == "imul":
+                    hneg *= c
+                else:
+                    hneg /= c
+        except Exception as ex:
+            raised = ex
+        with attach.quiet():
+            dd = snap.diff(s0, snap.snapshot(hneg))
+        if raised is not None and dd:
+            rec.fail(monitor="C06.scale.stats", op=form, symptom="a refused in-place scaling changed the histogram", diff=sorted(dd),
+                     detail={"factor": repr(c), "error": f"{type(raised).__name__}: {raised}"[:120], "frequencies": np.asarray(a.frequencies).tolist()[:6]})
+        rec.case(["refused", s0["frequencies"], repr(c), form], has_negative and raised is not None, cls=f"refused_for_contents/{form}/{'raised' if raised is not None else 'accepted'}")
+        return
+    up = rng.random() < 0.5
+    c = rng.choice([1e150, 1e149, 3e150]) if up else rng.choice([1e-150, 1e-149, 2.5e-150])
+    mag = rng.choice([1e3, 1e4]) if up else rng.choice([1e-6, 1e-5])
+    n = rng.randint(3, 30)
+    data = [mag * rng.randint(-64, 64) / 8 for _ in range(n)]
+    if len(set(data)) < 2:
+        data[0] = data[0] + mag
+    lo, hi = min(data), max(data)
+    h = physt.h1(np.asarray(data), rng.randint(1, 6), range=(lo, hi + mag))
+    fr = [Fraction(x) for x in data]
+    mean = sum(fr) / n
+    var = float(sum((x - mean) ** 2 for x in fr) / n)
+    form = rng.choice(["mul", "rmul", "imul", "div", "idiv"])
+    try:
+        with warnings.catch_warnings():
+            warnings.simplefilter("ignore")
+            if form == "mul":
+                g = h * c
+            elif form == "rmul":
+                g = c * h
+            elif form == "imul":
+                g = h.copy()
+                g *= c
+            elif form == "div":
+                g = h / (1 / c)
+            else:
+                g = h.copy()
+                g /= 1 / c
+    except Exception as ex:
+        rec.fail(monitor="C06.scale.stats", op=form, symptom=f"scaling by a finite positive factor raised {type(ex).__name__}", diff=["raised"], detail={"factor": c, "error": str(ex)[:120]})
+        return
+    with attach.quiet():
+        try:
+            got = {"mean": float(g.statistics.mean()), "variance": float(g.statistics.variance()), "std": float(g.statistics.std())}
+        except Exception as ex:
+            rec.fail(monitor="C06.scale.stats", op=form, symptom=f"reading the statistics of a scaled histogram raised {type(ex).__name__}", diff=["statistics"],
+                     detail={"factor": c, "error": str(ex)[:120], "data": data[:6]})
+            rec.case(["far", data, c, form], True, cls=f"far_scale/{'up' if up else 'down'}/{form}")
+            return
+    want = {"mean": float(mean), "variance": var, "std": math.sqrt(var)}
+    size = {"mean": abs(float(mean)) + math.sqrt(var), "variance": var + float(mean) ** 2, "std": math.sqrt(var + float(mean) ** 2)}
+    for k in ("mean", "variance", "std"):
+        if not (abs(got[k] - want[k]) <= 1e-6 * size[k]):
+            rec.fail(monitor="C06.scale.stats", op=form, symptom=f"statistics {k} not invariant under positive rescaling by a factor far from one", diff=["statistics"],
+                     detail={"factor": c, "expected": want[k], "got": got[k], "data": data[:6], "n": n})
+            break
+    rec.case(["far", data, c, form], True, cls=f"far_scale/{'up' if up else 'down'}/{form}")
+
+
 def run(ctx):
     attach_monitors()
+    ctx.run_cases(ctx.scale(80, 500), far_scale_case, salt="far")
     ctx.run_cases(ctx.scale(40, 300), narrow_total_case, salt="narrow")
     ctx.run_cases(ctx.scale(500, 4000), one_case, salt="scale")
     ctx.run_cases(ctx.scale(100, 800), collection_case, salt="collection")
